@@ -390,4 +390,72 @@ if "py_format_bin_fspec k n" in _fmt_texts.get("format-fspec", "") and "(py_form
 else:
     print("NOT DISTINCT format forms:\n" + _fmt_texts.get("format-fspec", "") + "\n" + _fmt_texts.get("format-zfill", ""))
     bad += 1
-sys.exit(1 if bad else 0)
+_main_bad = bad
+
+
+# ---- fail-closed guards (translator/guards.py): class shape, module-level effects, default arguments
+def _guard_tests():
+    import guards
+    import shutil
+
+    root = WORK / "guards_pkg"
+    base = {
+        "queasars/__init__.py": "",
+        "queasars/base.py": "from abc import ABC\n\nclass Base(ABC):\n    \"\"\"doc\"\"\"\n    def helper(self, k: int = 1):\n        return k\n",
+        "queasars/mod.py": ("from dataclasses import dataclass\nfrom queasars.base import Base\n\nLIMIT: int = 3\n\n@dataclass(frozen=True)\nclass M(Base):\n    name: str\n    size: int = 0\n\n"
+                            "    def __post_init__(self):\n        if self.name == \"\":\n            raise ValueError(\"x\")\n\n    def f(self, a, b=None):\n        return a\n\n"
+                            "def g(x, y=2):\n    return x + y\n"),
+    }
+    spec = dict(id="GT", source="queasars/mod.py", functions=[dict(py="M.f"), dict(py="g")])
+
+    def snap(files):
+        if root.exists():
+            shutil.rmtree(root)
+        for rel, text in files.items():
+            (root / rel).parent.mkdir(parents=True, exist_ok=True)
+            (root / rel).write_text(text)
+        return guards.snapshot(spec, root)
+
+    rec = snap(base)
+    mod, bas = base["queasars/mod.py"], base["queasars/base.py"]
+    cases = {
+        # name: (changed files, must differ?)
+        "guard-new-eq": ({"queasars/mod.py": mod.replace("    def f(self", "    def __eq__(self, other):\n        return self.name.lower() == other.name.lower()\n\n    def f(self")}, True),
+        "guard-dataclass-eq-false": ({"queasars/mod.py": mod.replace("@dataclass(frozen=True)", "@dataclass(frozen=True, eq=False)")}, True),
+        "guard-new-base-class": ({"queasars/mod.py": mod.replace("class M(Base):", "class M(Base, dict):")}, True),
+        "guard-inherited-new-eq": ({"queasars/base.py": bas + "    def __eq__(self, other):\n        return True\n"}, True),
+        "guard-inherited-new-hash": ({"queasars/base.py": bas + "    __hash__ = None\n"}, True),
+        "guard-new-field": ({"queasars/mod.py": mod.replace("    size: int = 0\n", "    size: int = 0\n    tag: str = \"\"\n")}, True),
+        "guard-field-default-changed": ({"queasars/mod.py": mod.replace("    size: int = 0\n", "    size: int = 1\n")}, True),
+        "guard-new-class-in-translated-module": ({"queasars/mod.py": mod + "\nclass Lazy(dict):\n    def __missing__(self, k):\n        return 0\n"}, True),
+        "guard-method-becomes-property": ({"queasars/mod.py": mod.replace("    def f(self, a, b=None):", "    @property\n    def f(self, a, b=None):")}, True),
+        "guard-module-level-call": ({"queasars/base.py": "from numpy import seterr\nseterr(all=\"raise\")\n" + bas}, True),
+        "guard-module-level-call-in-init": ({"queasars/__init__.py": "import warnings\nwarnings.simplefilter(\"error\")\n"}, True),
+        "guard-module-level-assignment-of-call": ({"queasars/mod.py": mod.replace("LIMIT: int = 3", "LIMIT: int = int(input())")}, True),
+        "guard-module-level-loop": ({"queasars/mod.py": mod + "\nfor _i in range(3):\n    pass\n"}, True),
+        "guard-call-default-in-method": ({"queasars/mod.py": mod.replace("def f(self, a, b=None):", "def f(self, a, b=dict()):")}, True),
+        "guard-mutable-default-in-method": ({"queasars/mod.py": mod.replace("def f(self, a, b=None):", "def f(self, a, b={}):")}, True),
+        "guard-default-of-translated-function": ({"queasars/mod.py": mod.replace("def g(x, y=2):", "def g(x, y=3):")}, True),
+        "guard-call-default-in-new-module-function": ({"queasars/mod.py": mod + "\nfrom random import Random\n\ndef h(r: Random = Random()):\n    return r\n"}, True),
+        "guard-inherited-default-changed": ({"queasars/base.py": bas.replace("k: int = 1", "k: int = 2")}, True),
+        # cosmetic: must NOT differ
+        "guard-cosmetic": ({"queasars/mod.py": mod.replace("        if self.name == \"\":\n            raise ValueError(\"x\")", "        # comment\n        if (self.name\n                == \"\"):\n            raise ValueError(\"another message\")")
+                                                 .replace("def f(self, a, b=None):\n        return a", "def f(self, a: int, b: 'str' = None) -> int:\n        \"\"\"doc\"\"\"\n        return a")
+                                                 .replace("def g(x, y=2):", "def g(x: int, y: int = 2) -> int:"),
+                            "queasars/base.py": bas.replace("\"\"\"doc\"\"\"", "\"\"\"other doc\"\"\"").replace("return k", "return k + 0")}, False),
+        "guard-new-constant-and-import": ({"queasars/mod.py": "import os\nfrom typing import TYPE_CHECKING, TypeVar\nif TYPE_CHECKING:\n    import json\nT = TypeVar(\"T\")\nNAMES = (\"a\", \"b\")\n__all__ = [\"M\"]\n" + mod}, False),
+        "guard-new-repr": ({"queasars/mod.py": mod.replace("    def f(self", "    def __repr__(self):\n        return self.name\n\n    def f(self")}, False),
+    }
+    bad = 0
+    for name, (changes, must) in cases.items():
+        d = guards.compare(rec, snap({**base, **changes}))
+        if bool(d) != must:
+            print(f"{'NOT REJECTED' if must else 'NOT ACCEPTED'} {name}: {d[:2]}")
+            bad += 1
+        else:
+            print(f"{'rejected ' if must else 'accepted '} {name:44s} {(d[0][0] + ': ' + d[0][2][:70]) if d else ''}")
+    return bad
+
+
+_gbad = _guard_tests()
+sys.exit(1 if (_main_bad or _gbad) else 0)
